@@ -79,6 +79,20 @@ impl rustc_driver::Callbacks for Cb {
 			bodies.push(mirfacts::body_facts(tcx, ldid, &mut adts));
 		}
 		root.put("bodies", J::Arr(bodies));
+		// initialisers of non-generic const / static items (dispatch tables and the like)
+		let mut const_bodies = vec![];
+		for ldid in tcx.hir_body_owners() {
+			let did = ldid.to_def_id();
+			let dk = tcx.def_kind(did);
+			if !matches!(dk, DefKind::Const { .. } | DefKind::Static { .. }) {
+				continue;
+			}
+			if tcx.generics_of(did).count() != 0 || tcx.def_span(did).from_expansion() {
+				continue;
+			}
+			const_bodies.push(mirfacts::body_facts(tcx, ldid, &mut adts));
+		}
+		root.put("const_bodies", J::Arr(const_bodies));
 		root.put("adts", adts.finish(tcx));
 		root.put("impls", hirfacts::impl_facts(tcx));
 		root.put("hir", hirfacts::hir_facts(tcx));
